@@ -300,25 +300,36 @@ def fam_site(case_id):
     return "nest-expr"
 
 
-def family_universes(run, wd):
-    """Emit (TLC), record (c07), validate (TLC re-derives id, text and std flag of every record from its index)."""
-    with concurrent.futures.ThreadPoolExecutor(max_workers=3) as ex:
-        emitted = dict(zip(FAMILIES, ex.map(lambda f: emit_family(wd, f), FAMILIES)))
-    summaries = {}
-    for fam in FAMILIES:
-        summaries[fam] = record_universe(wd, ["cases", emitted[fam][1]], "fam-" + fam)
-        note_isolation(run, summaries[fam])
-    with concurrent.futures.ThreadPoolExecutor(max_workers=3) as ex:
-        futs = {fam: ex.submit(tlc_validate, wd, "fam-" + fam, "fam." + fam, 0, 4, 3000, "tlc-fam-" + fam) for fam in FAMILIES}
+class FamilyRun:
+    """The family universes in three stages, so that the TLC work overlaps with the other universes:
+    start() emits (TLC, background), record() compiles (recorder) and submits the validations (TLC, background),
+    finish() absorbs the results."""
+
+    def __init__(self, wd):
+        self.wd = wd
+        self.ex = concurrent.futures.ThreadPoolExecutor(max_workers=3)
+        self.emitted = {fam: self.ex.submit(emit_family, wd, fam) for fam in FAMILIES}
+        self.summaries = {}
+        self.validations = {}
+
+    def record(self, run):
         for fam in FAMILIES:
-            r, rejects, uni = futs[fam].result()
+            size, path = self.emitted[fam].result()
+            self.summaries[fam] = record_universe(self.wd, ["cases", path], "fam-" + fam)
+            note_isolation(run, self.summaries[fam])
+            self.validations[fam] = self.ex.submit(tlc_validate, self.wd, "fam-" + fam, "fam." + fam, 0, 4, 3000, "tlc-fam-" + fam)
+
+    def finish(self, run):
+        for fam in FAMILIES:
+            r, rejects, uni = self.validations[fam].result()
             label = "fam." + fam
-            absorb(run, wd, "fam-" + fam, label, r, rejects, uni, tok=False, keep_samples=2, fam=True, classify=fam_cell)
-            size = emitted[fam][0]
+            absorb(run, self.wd, "fam-" + fam, label, r, rejects, uni, tok=False, keep_samples=2, fam=True, classify=fam_cell)
+            size = self.emitted[fam].result()[0]
             if not (uni["total"] == size and uni["first"] == 1 and uni["last"] == size and uni["records"] == size):
                 vlib.tool_error("%s: validated %r but TLC says the family is 1..%d" % (label, uni, size))
             run.universes[label]["exhaustive_total_by_tlc"] = size
-            run.universes[label]["notrun"] = summaries[fam].get("notrun", 0)
+            run.universes[label]["notrun"] = self.summaries[fam].get("notrun", 0)
+        self.ex.shutdown()
 
 
 def family_guards(run):
@@ -579,16 +590,18 @@ def run(ctx):
     plan = (("tok20.top", 4), ("tok20.body", 4), ("tok31.top", 3), ("tok31.body", 3), ("tok31.raw", 3)) if quick else \
            (("tok20.top", 4), ("tok20.body", 5), ("tok31.top", 3), ("tok31.body", 4), ("tok31.raw", 4))
     chunk = 45000 if quick else 240000
+    families = FamilyRun(wd)          # TLC starts emitting the families now
     for u, maxlen in plan:
         tok_universe(run_, wd, u, maxlen, chunk, parallel=4)
     case_universe(run_, wd, ["proj"], "proj", "projects")
-    family_universes(run_, wd)
+    families.record(run_)             # compiled now; validated by TLC while the mutations are recorded
     nmut, rounds = (40000, 1) if quick else (80000, 5)
     for i in range(rounds):
         env = {"VERIF_SEED": str(vlib.seed() * 1000 + i)} if rounds > 1 else None
         s = case_universe(run_, wd, ["mut", nmut], "mut-%d" % i, "mutations", env=env)
         if s["records"] < nmut * 0.9 and not s.get("notrun"):
             vlib.tool_error("mutation generator produced only %d of %d cases" % (s["records"], nmut))
+    families.finish(run_)
 
     # 3. verdicts (before the guards: the guards are calibrated for a tree on which the property holds; once a violation
     #    is on record vlib.tool_error reports it instead of the failing guard)
